@@ -223,11 +223,15 @@ def corruption_sweep(res, tr, label, jwk: dict, rng, viol_c):
 
 
 def run(rng: Rng, tier: str, index: int) -> RunResult:
+    from joserfc.jwk import KeySet
     res = RunResult()
     tr = Trace()
     thorough = tier == "thorough"
     kind = S.KEY_KINDS[index % len(S.KEY_KINDS)]
     n_keys = 2 if tier == "quick" else 3
+    big_rsa = kind[0] == "RSA" and kind[1] > 2048
+    if big_rsa and tier == "quick":
+        n_keys = 1          # every import of a 3072 / 4096 bit private key costs 0.1 - 0.3 s of OpenSSL consistency checks
     for ki in range(n_keys):
         krng = rng.sub("key%d" % ki)
         label = "%d.%d" % (index, ki)
@@ -268,11 +272,36 @@ def run(rng: Rng, tier: str, index: int) -> RunResult:
         # storage-fault sweep on the persisted JWKs
         priv_jwk = rk.to_jwk(material, True)
         priv_jwk.update(params)
-        corruption_sweep(res, tr, label + ".priv", priv_jwk, krng.sub("cs1"), viol_c)
+        if not (big_rsa and tier == "quick" and index % 3):
+            corruption_sweep(res, tr, label + ".priv", priv_jwk, krng.sub("cs1"), viol_c)
         if kind[0] != "oct":
             pub_jwk = rk.to_jwk(material.public(), False)
             pub_jwk.update(params)
             corruption_sweep(res, tr, label + ".pub", pub_jwk, krng.sub("cs2"), viol_c)
+        # parameters a JWK import would refuse, given beside key material that is not a JWK (PEM / DER / raw / generated): however late
+        # they are looked at, a refusal is final - no later export hands the refused members out
+        if not (kind[0] == "RSA" and kind[1] > 2048):
+            for bad_params in ({"use": "sig", "key_ops": ["encrypt"]}, {"use": "bogus"}, {"kid": 5}, {"key_ops": ["sign", "sign-everything"]}):
+                hows = ["raw"] if kind[0] == "oct" else ["pem", "der"]
+                for how2 in hows:
+                    res.case(label, "refused-parameters", how2, json.dumps(bad_params, sort_keys=True))
+                    res.fired("invalid-parameters-beside-non-jwk-material")
+                    try:
+                        k2 = S.provision(material, how2, copy.deepcopy(bad_params))
+                    except Exception:
+                        continue        # refused at import: fine
+                    outcomes = []
+                    for call in (lambda: k2.as_dict(), lambda: k2.as_dict(private=False), lambda: k2.as_dict(), lambda: KeySet([k2]).as_dict()):
+                        try:
+                            outcomes.append(("ok", call()))
+                        except Exception as e:
+                            outcomes.append(("exc", type(e).__name__))
+                    kinds_seen = [o[0] for o in outcomes]
+                    if "exc" in kinds_seen and "ok" in kinds_seen[kinds_seen.index("exc"):]:
+                        handed = next(o[1] for o in outcomes[kinds_seen.index("exc"):] if o[0] == "ok")
+                        viol("export:refused-parameters-handed-out-later", "parameters %r (beside %s material) were refused by one export (%s) and handed out by a later one: %r" % (
+                            bad_params, how2, outcomes[kinds_seen.index("exc")][1], {k: v for k, v in (handed if "keys" not in handed else handed["keys"][0]).items() if k in bad_params}),
+                            "refused-parameters")
         if kind[0] == "RSA":
             # RSA private JWK with d only (no CRT members) is legal and must reload to the same key
             d_only = {k: v for k, v in rk.to_jwk(material, True).items() if k not in S.CRT}
